@@ -66,3 +66,11 @@ def r7_map_call(run, tree):
 
 
 RULES = [r6_norm_fresh, r1_axis_table, r2_constructor, r3_perpendicular, r4_handedness, r5_forms, r7_map_call]
+
+
+def t_all_spellings(run, tree):
+    run.rule("C18.T1", "thorough: every accepted axis string in every mix of upper and lower case (3 x 2 + 6 x 8 = 54 spellings) gives exactly the documented axis vectors", "D7 fold of get_direction over the complete string domain", "", floor=54)
+    df.check_string_forms(run, tree, all_cases=True)
+
+
+THOROUGH_RULES = [t_all_spellings]
